@@ -18,18 +18,22 @@ RGsSingle2 == RGs(RowsX(2), {NoPart, 0, 1})
 RGsSingle3 == RGs(RowsX(3), {NoPart, 0, 1})
 
 (* B: pairs, as a flat list (AND), as one explicit AND group, and as two OR groups *)
-RedX == AtomsOn("x", {0, 2}, {{}, {1}, {0, 3}})
-RedY == AtomsOn("y", {0, 2}, {{}, {2}})
-RedP == AtomsOn("p", {0, 1}, {{}, {1}})
+RedX == AtomsOn("x", {1}, {{}, {0, 3}})
+RedY == AtomsOn("y", {2}, {{2}})
+RedP == AtomsOn("p", {1}, {{1}})
 Pairs == (RedX \X RedX) \cup (RedX \X RedY) \cup (RedX \X RedP) \cup (RedP \X RedX)
 ProgsPair == {[flat |-> TRUE, groups |-> <<<<pr[1], pr[2]>>>>] : pr \in Pairs}
              \cup {[flat |-> FALSE, groups |-> <<<<pr[1], pr[2]>>>>] : pr \in Pairs}
              \cup {[flat |-> FALSE, groups |-> <<<<pr[1]>>, <<pr[2]>>>>] : pr \in Pairs}
 RGsPair2 == RGs(RowsXY(2), {NoPart, 0, 1})
+RowsXYq == [1..1 -> [x : {0, 2, NULL}, y : {0, 2}]] \cup [1..2 -> [x : {0, 2, NULL}, y : {0, 2}]]
+RGsPairQ == RGs(RowsXYq, {NoPart, 0, 1})
+RGsSingle1 == RGs(RowsX(1), {NoPart, 0, 1})
 
 (* spec -> code: the (op, constant, min, max) tuples the pruner is asked about, with the transcription's answer *)
 StatPairs == {<<a, b>> \in (Vals \cup {NoVal}) \X (Vals \cup {NoVal}) : a = NoVal \/ b = NoVal \/ a <= b}
+FVArgs == {<<op, {c}>> : op \in ScalarOps, c \in Consts} \cup {<<op, S>> : op \in SetOps, S \in Sets2(Consts)}
 FilterValCases ==
-  {[op |-> op, c |-> c, vmin |-> mm[1], vmax |-> mm[2], out |-> FilterVal(op, c, mm[1], mm[2])] :
-     op \in ScalarOps \cup SetOps, c \in Sets2(Consts), mm \in StatPairs}
+  {[op |-> a[1], c |-> a[2], vmin |-> mm[1], vmax |-> mm[2], out |-> FilterVal(a[1], a[2], mm[1], mm[2])] :
+     a \in FVArgs, mm \in StatPairs}
 =============================================================================
